@@ -21,6 +21,8 @@ type tncConn struct {
 	ctrlOut  chan<- string
 	dataOut  chan<- []byte
 	dataIn   <-chan []byte
+	readLock sync.Mutex
+	rest     []byte // Remaining bytes of a data frame that did not fit the previous Read buffer
 	eofChan  chan struct{}
 	ctrlIn   broadcaster
 	isTCP    bool
@@ -53,20 +55,21 @@ func (conn *tncConn) Read(p []byte) (int, error) {
 		return 0, nil
 	}
 
-	data, ok := <-conn.dataIn
-	if !ok {
-		return 0, io.EOF
+	conn.readLock.Lock()
+	defer conn.readLock.Unlock()
+
+	for len(conn.rest) == 0 {
+		data, ok := <-conn.dataIn
+		if !ok {
+			return 0, io.EOF
+		}
+		conn.rest = data
 	}
 
-	if len(data) > len(p) {
-		panic("too large") // TODO: Handle
-	}
+	n := copy(p, conn.rest)
+	conn.rest = conn.rest[n:]
 
-	for i, b := range data {
-		p[i] = b
-	}
-
-	return len(data), nil
+	return n, nil
 }
 
 func (conn *tncConn) Write(p []byte) (int, error) {
